@@ -395,14 +395,15 @@ func checkA(c CaseA) *core.Violation {
 	w := &worldA{fx: fx}
 	ts := fx.TS
 
-	// the service script that defines the listener kind svcKind
+	// one step at a time: the operator side's own External listener first, then the service
+	// script that defines the listener kind svcKind
+	if err := ts.ListenerStart(handlers.LISTENER_EXTERNAL, handlers.ExternalConfig{Name: svcx.OpExt, Endpoint: "opext"}); err != nil {
+		return inconclusive("op-ext: %v", err)
+	}
 	if w.svc, err = fx.Connect(0); err != nil {
 		return inconclusive("service connect: %v", err)
 	}
 	w.svc.RegisterListener(svcKind, "SvcAgent")
-	if err := ts.ListenerStart(handlers.LISTENER_EXTERNAL, handlers.ExternalConfig{Name: svcx.OpExt, Endpoint: "opext"}); err != nil {
-		return inconclusive("op-ext: %v", err)
-	}
 	if err := w.svc.Barrier(); err != nil {
 		return inconclusive("barrier: %v", err)
 	}
